@@ -82,9 +82,13 @@ func checkRowCacheIndexes(e *Env, rc *cache.RowCache, t *Table, clientIdx []mode
 				match func(x Row) bool
 			}{
 				{[]ovsdb.Condition{ovsdb.NewCondition("num", ovsdb.ConditionEqual, num), ovsdb.NewCondition("flag", ovsdb.ConditionEqual, !flag)},
-					func(x Row) bool { return len(x["num"].Set) == 1 && int(x["num"].Set[0].I) == num && len(x["flag"].Set) == 1 && x["flag"].Set[0].B == !flag }},
+					func(x Row) bool {
+						return len(x["num"].Set) == 1 && int(x["num"].Set[0].I) == num && len(x["flag"].Set) == 1 && x["flag"].Set[0].B == !flag
+					}},
 				{[]ovsdb.Condition{ovsdb.NewCondition("num", ovsdb.ConditionEqual, num), ovsdb.NewCondition("name", ovsdb.ConditionEqual, name)},
-					func(x Row) bool { return len(x["num"].Set) == 1 && int(x["num"].Set[0].I) == num && len(x["name"].Set) == 1 && x["name"].Set[0].S == name }},
+					func(x Row) bool {
+						return len(x["num"].Set) == 1 && int(x["num"].Set[0].I) == num && len(x["name"].Set) == 1 && x["name"].Set[0].S == name
+					}},
 			} {
 				got, err := rc.RowsByCondition(q.conds)
 				if err != nil {
